@@ -306,6 +306,22 @@ def run(ctx):
         ctx.ob("R7.exposed-family-comes-from-registry", "try_initialize.created-family-not-returned", bool(fam) and not leaks, ti2.loc(),
                f"family() creation sites {len(fam)}; the created family flows into the return value: {leaks}")
     provider_door_rule(ctx, prog)
+    # the per-thread maps are keyed by ThreadId (never reused while the process lives) - not by anything a later thread can have
+    # again (a thread-local's address, an OS thread id, an index)
+    nk = 0
+    for ap, a in prog.adts.items():
+        if not ap.startswith("linked::instance_per_thread") or not ap.endswith("FamilyStateReference"):
+            continue
+        for v in a.get("variants", []):
+            for f in v["fields"]:
+                ts = f["ty"]["s"]
+                if "HashMap<" in ts:
+                    nk += 1
+                    key_ok = "HashMap<std::thread::ThreadId," in ts
+                    ctx.ob("R2.cleanup-keyed-by-origin", f"{short(ap)}.{f['name']}:keyed-by-ThreadId", key_ok, "",
+                           f"per-thread map type: {ts[:120]}")
+    if nk == 0:
+        ctx.missing("R2.cleanup-keyed-by-origin", "the per-thread HashMap of FamilyStateReference")
     # a function that can make other threads WAIT (it waits on a condition variable for a condition it also sets) releases them
     # on every way out: each return reachable after its wait passes a notify. (No such construct exists on the pinned tree - first
     # access is arbitrated by the registry lock alone; the rule arms itself when one is introduced.)
